@@ -7,6 +7,7 @@ import (
 	"fmt"
 	"math"
 	"sort"
+	"strings"
 	"time"
 
 	sdkmath "cosmossdk.io/math"
@@ -1001,6 +1002,7 @@ func (s *Sim) opRelay() {
 	n := 1 + s.R.Intn(3)
 	var relays []*pairingtypes.RelaySession
 	epoch := s.relayEpoch()
+	upper := s.R.Intn(10) == 0
 	for i := 0; i < n; i++ {
 		cu := uint64(1 + s.R.Intn(400))
 		switch s.R.Intn(8) {
@@ -1010,6 +1012,9 @@ func (s *Sim) opRelay() {
 			cu = 1
 		}
 		rs := s.newSession(dev, prov, chain, epoch, cu)
+		if upper {
+			rs.Provider = strings.ToUpper(prov) // bech32 also accepts the all-uppercase spelling of the same address
+		}
 		if s.R.Intn(4) == 0 {
 			rs.QosReport = s.someQos()
 		}
